@@ -328,7 +328,7 @@ func (c *Checker) hoistMethodDefinitionsWithinClass(node *ast.ClassDeclarationNo
 	if ok {
 		c.registerNamespaceWithIvars(class, node.Location())
 		c.popLocalConstScope()
-		c.popMethodScope()
+		c.popLocalMethodScope()
 	}
 }
 
@@ -379,7 +379,7 @@ func (c *Checker) hoistMethodDefinitionsWithinModule(node *ast.ModuleDeclaration
 	if ok {
 		c.registerNamespaceWithIvars(module, node.Location())
 		c.popLocalConstScope()
-		c.popMethodScope()
+		c.popLocalMethodScope()
 	}
 }
 
@@ -400,7 +400,7 @@ func (c *Checker) hoistMethodDefinitionsWithinMixin(node *ast.MixinDeclarationNo
 
 	if ok {
 		c.popLocalConstScope()
-		c.popMethodScope()
+		c.popLocalMethodScope()
 	}
 }
 
@@ -421,7 +421,7 @@ func (c *Checker) hoistMethodDefinitionsWithinInterface(node *ast.InterfaceDecla
 
 	if ok {
 		c.popLocalConstScope()
-		c.popMethodScope()
+		c.popLocalMethodScope()
 	}
 }
 
@@ -445,7 +445,7 @@ func (c *Checker) hoistMethodDefinitionsWithinSingleton(expr *ast.SingletonBlock
 
 	c.registerNamespaceWithIvars(singleton, expr.Location())
 	c.popLocalConstScope()
-	c.popMethodScope()
+	c.popLocalMethodScope()
 }
 
 func (c *Checker) hoistMethodDefinitionsWithinExtendWhere(node *ast.ExtendWhereBlockExpressionNode) {
@@ -462,7 +462,7 @@ func (c *Checker) hoistMethodDefinitionsWithinExtendWhere(node *ast.ExtendWhereB
 
 	if ok {
 		c.popLocalConstScope()
-		c.popMethodScope()
+		c.popLocalMethodScope()
 	}
 }
 
